@@ -24,6 +24,10 @@ Lemma g_burn : G.burn_includes_tax = true.                          Proof. refle
 Lemma g_gov_tax t : G.gov_tax_token t = t.                             Proof. reflexivity. Qed.
 Lemma g_gov_limit t : G.gov_limit_token t = t.                         Proof. reflexivity. Qed.
 Lemma g_exact_denom : G.settings_keyed_by_exact_denom = true.          Proof. reflexivity. Qed.
+Lemma g_gen_settings : G.genesis_carries_settings = true.              Proof. reflexivity. Qed.
+Lemma g_gen_usage : G.genesis_carries_usage = false.                   Proof. reflexivity. Qed.
+Lemma g_pick : G.batch_picks_largest_amount_then_id_first = true.      Proof. reflexivity. Qed.
+Lemma g_batch_size : G.batch_size = 100.                               Proof. reflexivity. Qed.
 Lemma g_blocks_pos : 0 < G.blocks_DAILY /\ 0 < G.blocks_WEEKLY /\ 0 < G.blocks_MONTHLY /\ 0 < G.blocks_YEARLY.
 Proof. repeat split; reflexivity. Qed.
 
@@ -310,6 +314,58 @@ Proof.
   - now apply upd_other.
 Qed.
 
+(** ** Batch building: which transfers, and that nothing else changes *)
+Lemma in_insert_tx t x l : In t (insert_tx x l) <-> t = x \/ In t l.
+Proof.
+  induction l as [|y r IH]; simpl; [intuition|].
+  destruct (picked_before y x); simpl; rewrite ?IH; intuition.
+Qed.
+
+Lemma in_pick_order t l : In t (pick_order l) <-> In t l.
+Proof.
+  unfold pick_order. destruct G.batch_picks_largest_amount_then_id_first; [|reflexivity].
+  induction l as [|x r IH]; simpl; [reflexivity|]. rewrite in_insert_tx, IH. intuition.
+Qed.
+
+Lemma batch_frame tok s s' r : batch_raw tok s = (s', r) ->
+  bal s' = bal s /\ escrow s' = escrow s /\ burned s' = burned s /\ last_id s' = last_id s /\
+  mapped s' = mapped s /\ taxes s' = taxes s /\ limits s' = limits s /\ usages s' = usages s.
+Proof.
+  unfold batch_raw. destruct (negb _); [intros H; inversion H; subst; repeat split|].
+  destruct (firstn _ _); intros H; inversion H; subst; repeat split.
+Qed.
+
+Lemma batch_pending_in tok s s' r t : batch_raw tok s = (s', r) ->
+  In t (pool s' ++ flat_map b_txs (batches s')) -> In t (pool s ++ flat_map b_txs (batches s)).
+Proof.
+  unfold batch_raw. destruct (negb _); [intros H; inversion H; subst; auto|].
+  set (cands := pick_order (filter (of_tok tok) (pool s))).
+  assert (HC : forall x, In x cands -> In x (pool s)).
+  { intros x Hx. unfold cands in Hx. apply (proj1 (in_pick_order _ _)) in Hx. now apply filter_In in Hx. }
+  destruct (firstn batch_cap cands) as [|t0 sel] eqn:EF; intros H; inversion H; subst; clear H; auto.
+  simpl. rewrite !in_app_iff. intros [[Hi|Hi]|[Hi|Hi]].
+  - left. apply HC. rewrite <- (firstn_skipn batch_cap cands). apply in_app_iff. now right.
+  - left. now apply filter_In in Hi.
+  - left. apply HC. rewrite <- (firstn_skipn batch_cap cands). apply in_app_iff. left. rewrite EF. now left.
+  - apply in_app_iff in Hi. destruct Hi as [Hi|Hi]; [|now right].
+    left. apply HC. rewrite <- (firstn_skipn batch_cap cands). apply in_app_iff. left. rewrite EF. now right.
+Qed.
+
+(** a batch never holds more than the cap, and takes the first [batch_cap] candidates in pick order *)
+Lemma batch_at_most_cap tok s s' : batch_raw tok s = (s', Ok) ->
+  s' = s \/ exists b, batches s' = b :: batches s /\ b_tok b = tok /\ b_nonce b = last_batch s + 1 /\
+    b_txs b = firstn batch_cap (pick_order (filter (of_tok tok) (pool s))) /\
+    (List.length (b_txs b) <= batch_cap)%nat /\ b_txs b <> [] /\
+    pool s' = skipn batch_cap (pick_order (filter (of_tok tok) (pool s))) ++ filter (fun t => negb (of_tok tok t)) (pool s).
+Proof.
+  unfold batch_raw. destruct (negb _); [discriminate|].
+  destruct (firstn batch_cap _) as [|t0 sel] eqn:EF; intros H; inversion H; subst; clear H; [now left|].
+  right. exists {| b_nonce := last_batch s + 1; b_tok := tok; b_txs := t0 :: sel |}. simpl.
+  repeat split; auto.
+  - change (List.length (t0 :: sel) <= batch_cap)%nat. rewrite <- EF. apply firstn_le_length.
+  - discriminate.
+Qed.
+
 (** ** Frame facts for histories *)
 Definition is_setlimit (tok : Z) (o : op) : bool :=
   match o with SetLimit t _ _ _ => t =? tok | _ => false end.
@@ -325,21 +381,21 @@ Proof.
   - unfold cancel_raw in ER. destruct (id <? 1); [discriminate|].
     destruct (find_tx id (pool s)); [|discriminate].
     destruct (negb _); [discriminate|]. destruct (_ <? _); [discriminate|]. now inversion ER.
-  - unfold batch_raw in ER. destruct (negb _); [discriminate|].
-    destruct (filter _ _); inversion ER; reflexivity.
+  - apply batch_frame in ER as (_ & _ & _ & _ & _ & _ & Hl & _). now rewrite Hl.
   - unfold execute_raw in ER. destruct (find_batch _ _ _); [|discriminate].
     destruct (_ <? _); [discriminate|]. now inversion ER.
   - unfold unbatch_raw in ER. destruct (find_batch _ _ _); [|discriminate]. now inversion ER.
   - unfold settax_raw in ER. destruct (_ && _); [|discriminate]. now inversion ER.
   - unfold setlimit_raw in ER. inversion ER; subst. simpl. simpl in H.
     apply upd_other. intros ->. rewrite Z.eqb_refl in H. discriminate.
+  - unfold genesis_raw in ER. inversion ER; subst. simpl. try rewrite g_gen_settings; reflexivity.
 Qed.
 
 (** Only an accepted send of the same token can change a token's tally. *)
 Lemma step_usages_other tok o s :
-  (forall h snd a mal, o <> Send h snd tok a mal) -> usages (step s o) tok = usages s tok.
+  (forall h snd a mal, o <> Send h snd tok a mal) -> o <> Genesis -> usages (step s o) tok = usages s tok.
 Proof.
-  intros H. unfold step, deliver. destruct (raw o s) as [s1 r] eqn:ER.
+  intros H HG. unfold step, deliver. destruct (raw o s) as [s1 r] eqn:ER.
   destruct r; simpl; try reflexivity.
   destruct o; simpl in ER.
   - apply send_ok_inv in ER as (_ & _ & _ & s2 & tax & HL & _ & _ & _ & ->).
@@ -348,13 +404,13 @@ Proof.
   - unfold cancel_raw in ER. destruct (id <? 1); [discriminate|].
     destruct (find_tx id (pool s)); [|discriminate].
     destruct (negb _); [discriminate|]. destruct (_ <? _); [discriminate|]. now inversion ER.
-  - unfold batch_raw in ER. destruct (negb _); [discriminate|].
-    destruct (filter _ _); inversion ER; reflexivity.
+  - apply batch_frame in ER as (_ & _ & _ & _ & _ & _ & _ & Hu). now rewrite Hu.
   - unfold execute_raw in ER. destruct (find_batch _ _ _); [|discriminate].
     destruct (_ <? _); [discriminate|]. now inversion ER.
   - unfold unbatch_raw in ER. destruct (find_batch _ _ _); [|discriminate]. now inversion ER.
   - unfold settax_raw in ER. destruct (_ && _); [|discriminate]. now inversion ER.
   - unfold setlimit_raw in ER. now inversion ER.
+  - contradiction.
 Qed.
 
 (** What a send does to the tally of its token, in terms of [counted]. *)
@@ -402,28 +458,30 @@ Proof.
 Qed.
 
 Definition no_setlimit (tok : Z) (ops : list op) : Prop := Forall (fun o => is_setlimit tok o = false) ops.
+(** no chain restart from an exported genesis inside the history (the usage tally is not exported) *)
+Definition no_genesis (ops : list op) : Prop := Forall (fun o => o <> Genesis) ops.
 
 (** Generalised invariant: the stored tally IS the running total of the current window of the
     accepted transfers, and every closed window was within the limit. *)
 Lemma windows_from_usage tok lc : lc_period lc <> PNone ->
-  forall ops s u, limits s tok = Some lc -> no_setlimit tok ops ->
+  forall ops s u, limits s tok = Some lc -> no_setlimit tok ops -> no_genesis ops ->
     usages s tok = Some u -> u_total u <= lc_limit lc ->
     Forall (fun w => w <= lc_limit lc) (wsums (block_limit (lc_period lc)) (u_start u) (u_total u) (accepted tok s ops)) /\
     exists u', usages (run s ops) tok = Some u' /\
       last (wsums (block_limit (lc_period lc)) (u_start u) (u_total u) (accepted tok s ops)) 0 = u_total u'.
 Proof.
-  intros HP. induction ops as [|o ops IH]; intros s u HL HN HU Hle.
+  intros HP. induction ops as [|o ops IH]; intros s u HL HN HG HU Hle.
   - simpl. split; [constructor; auto|]. exists u. auto.
-  - inversion HN as [|? ? Ho HN']; subst.
+  - inversion HN as [|? ? Ho HN']; subst. inversion HG as [|? ? Hog HG']; subst.
     rewrite accepted_cons.
     assert (HL' : limits (step s o) tok = Some lc) by (rewrite step_limits; auto).
     change (run s (o :: ops)) with (run (step s o) ops).
     assert (NS : (exists h snd a mal, o = Send h snd tok a mal) \/
                  (counted tok (s, o, Datatypes.snd (deliver o s)) = None /\ usages (step s o) tok = usages s tok)).
-    { destruct o as [h snd tk a mal| | | | | |];
-        try (right; split; [apply counted_not_send; intros; discriminate | apply step_usages_other; intros; discriminate]).
+    { destruct o as [h snd tk a mal| | | | | | |];
+        try (right; split; [apply counted_not_send; intros; discriminate | apply step_usages_other; [intros; discriminate | exact Hog]]).
       destruct (Z.eq_dec tk tok) as [->|Hne]; [left; eauto|].
-      right. split; [now apply counted_other_tok|]. apply step_usages_other. intros h0 s0 a0 m0 E. inversion E. contradiction. }
+      right. split; [now apply counted_other_tok|]. apply step_usages_other; [|discriminate]. intros h0 s0 a0 m0 E. inversion E. contradiction. }
     destruct NS as [(h & snd & a & mal & ->)|[EC EU]].
     + pose proof (send_step_usage tok h snd a mal s) as HS.
       destruct (counted tok (s, Send h snd tok a mal, Datatypes.snd (deliver (Send h snd tok a mal) s))) as [[h' a']|].
@@ -433,7 +491,7 @@ Proof.
         simpl wsums.
         destruct (h - u_start u >=? block_limit (lc_period lc)) eqn:ER.
         -- inversion Hnu; subst nu; clear Hnu. simpl in Hnle.
-           destruct (IH _ _ HL' HN' Hus Hnle) as [IH1 IH2]. simpl in IH1, IH2.
+           destruct (IH _ _ HL' HN' HG' Hus Hnle) as [IH1 IH2]. simpl in IH1, IH2.
            split; [constructor; auto|].
            destruct IH2 as (u' & Hu' & Hlast). exists u'. split; auto.
            rewrite <- Hlast.
@@ -441,28 +499,28 @@ Proof.
            exfalso. eapply wsums_nonempty; eauto.
         -- destruct (fits (u_total u + a)); [|discriminate].
            inversion Hnu; subst nu; clear Hnu. simpl in Hnle.
-           destruct (IH _ _ HL' HN' Hus Hnle) as [IH1 IH2]. simpl in IH1, IH2. split; auto.
-      * specialize (IH (step s (Send h snd tok a mal)) u HL' HN'). rewrite HS in IH. now apply IH.
-    + rewrite EC. specialize (IH (step s o) u HL' HN'). rewrite EU in IH. now apply IH.
+           destruct (IH _ _ HL' HN' HG' Hus Hnle) as [IH1 IH2]. simpl in IH1, IH2. split; auto.
+      * specialize (IH (step s (Send h snd tok a mal)) u HL' HN' HG'). rewrite HS in IH. now apply IH.
+    + rewrite EC. specialize (IH (step s o) u HL' HN' HG'). rewrite EU in IH. now apply IH.
 Qed.
 
 (** (P) window_total_le_limit: fixed limit configuration for [tok] (governance may change
     everything else, including taxes and other tokens' limits), tally not yet started. *)
 Lemma window_total_le_limit_fresh tok lc ops s :
-  limits s tok = Some lc -> lc_period lc <> PNone -> usages s tok = None -> no_setlimit tok ops ->
+  limits s tok = Some lc -> lc_period lc <> PNone -> usages s tok = None -> no_setlimit tok ops -> no_genesis ops ->
   Forall (fun w => w <= lc_limit lc) (window_sums (block_limit (lc_period lc)) (accepted tok s ops)).
 Proof.
-  intros HL HP. revert s HL. induction ops as [|o ops IH]; intros s HL HU HN.
+  intros HL HP. revert s HL. induction ops as [|o ops IH]; intros s HL HU HN HG.
   - constructor.
-  - inversion HN as [|? ? Ho HN']; subst.
+  - inversion HN as [|? ? Ho HN']; subst. inversion HG as [|? ? Hog HG']; subst.
     rewrite accepted_cons.
     assert (HL' : limits (step s o) tok = Some lc) by (rewrite step_limits; auto).
     assert (NS : (exists h snd a mal, o = Send h snd tok a mal) \/
                  (counted tok (s, o, Datatypes.snd (deliver o s)) = None /\ usages (step s o) tok = usages s tok)).
-    { destruct o as [h snd tk a mal| | | | | |];
-        try (right; split; [apply counted_not_send; intros; discriminate | apply step_usages_other; intros; discriminate]).
+    { destruct o as [h snd tk a mal| | | | | | |];
+        try (right; split; [apply counted_not_send; intros; discriminate | apply step_usages_other; [intros; discriminate | exact Hog]]).
       destruct (Z.eq_dec tk tok) as [->|Hne]; [left; eauto|].
-      right. split; [now apply counted_other_tok|]. apply step_usages_other. intros h0 s0 a0 m0 E. inversion E. contradiction. }
+      right. split; [now apply counted_other_tok|]. apply step_usages_other; [|discriminate]. intros h0 s0 a0 m0 E. inversion E. contradiction. }
     destruct NS as [(h & snd & a & mal & ->)|[EC EU]].
     + pose proof (send_step_usage tok h snd a mal s) as HS.
       destruct (counted tok (s, Send h snd tok a mal, Datatypes.snd (deliver (Send h snd tok a mal) s))) as [[h' a']|].
@@ -470,7 +528,7 @@ Proof.
         apply limited_some in Hlim as (Hlc & _ & _). rewrite HL in Hlc. inversion Hlc; subst lc'. clear Hlc.
         unfold next_usage in Hnu. rewrite HU, g_fresh in Hnu. inversion Hnu; subst nu; clear Hnu.
         simpl in Hnle. simpl window_sums.
-        apply (proj1 (windows_from_usage tok lc HP ops _ _ HL' HN' Hus Hnle)).
+        apply (proj1 (windows_from_usage tok lc HP ops _ _ HL' HN' HG' Hus Hnle)).
       * apply IH; auto. now rewrite HS.
     + rewrite EC. apply IH; auto. now rewrite EU.
 Qed.
@@ -542,14 +600,8 @@ Proof.
     destruct (negb _); [discriminate|]. destruct (_ <? _); [discriminate|]. inversion ED; subst; clear ED.
     unfold pending. simpl. rewrite !in_app_iff. intros [H|H]; left; auto.
     left. unfold remove_tx in H. now apply filter_In in H.
-  - apply deliver_ok in ED. simpl in ED. unfold batch_raw in ED.
-    destruct (negb _); [discriminate|].
-    destruct (filter (of_tok tok) (pool s)) as [|t0 sel] eqn:EF; inversion ED; subst; clear ED; auto.
-    unfold pending. simpl. rewrite !in_app_iff. intros [H|H]; [|destruct H as [H|H]; [|apply in_app_iff in H; destruct H as [H|H]]]; left.
-    + left. now apply filter_In in H.
-    + left. assert (HI : In t (filter (of_tok tok) (pool s))) by (rewrite EF; left; exact H). now apply filter_In in HI.
-    + left. assert (HI : In t (filter (of_tok tok) (pool s))) by (rewrite EF; right; exact H). now apply filter_In in HI.
-    + right. exact H.
+  - apply deliver_ok in ED. simpl in ED. intros H. left. unfold pending in *.
+    eapply batch_pending_in; eauto.
   - apply deliver_ok in ED. simpl in ED. unfold execute_raw in ED.
     destruct (find_batch tok nonce (batches s)); [|discriminate].
     destruct (_ <? _); [discriminate|]. inversion ED; subst; clear ED.
@@ -563,6 +615,7 @@ Proof.
   - apply deliver_ok in ED. simpl in ED. unfold settax_raw in ED.
     destruct (_ && _); [|discriminate]. inversion ED; subst. auto.
   - apply deliver_ok in ED. simpl in ED. unfold setlimit_raw in ED. inversion ED; subst. auto.
+  - apply deliver_ok in ED. simpl in ED. unfold genesis_raw in ED. inversion ED; subst. auto.
 Qed.
 
 (** ** Well-formed tax configuration is an invariant of governance *)
@@ -580,8 +633,7 @@ Proof.
   - unfold cancel_raw in ER. destruct (id <? 1); [discriminate|].
     destruct (find_tx id (pool s)); [|discriminate].
     destruct (negb _); [discriminate|]. destruct (_ <? _); [discriminate|]. now inversion ER.
-  - unfold batch_raw in ER. destruct (negb _); [discriminate|].
-    destruct (filter _ _); inversion ER; subst; auto.
+  - apply batch_frame in ER as (_ & _ & _ & _ & _ & Htx & _). unfold tax_wf. now rewrite Htx.
   - unfold execute_raw in ER. destruct (find_batch _ _ _); [|discriminate].
     destruct (_ <? _); [discriminate|]. now inversion ER.
   - unfold unbatch_raw in ER. destruct (find_batch _ _ _); [|discriminate]. now inversion ER.
@@ -590,6 +642,7 @@ Proof.
     inversion ER; subst. unfold tax_wf, set_tax. simpl. intros tk tc. unfold upd.
     destruct (tk =? tok); [intros H; inversion H; subst; simpl; simpl in HO; lia | apply WF].
   - unfold setlimit_raw in ER. now inversion ER.
+  - unfold genesis_raw in ER. inversion ER; subst. unfold tax_wf. simpl. try rewrite g_gen_settings. exact WF.
 Qed.
 
 Lemma tax_wf_run ops s : tax_wf s -> Forall op_wf ops -> tax_wf (run s ops).
@@ -630,8 +683,7 @@ Proof.
     destruct (find_tx id (pool s)); [|discriminate].
     destruct (negb _); [discriminate|]. destruct (_ <? _); [discriminate|]. now inversion ER.
   - destruct r; simpl; auto.
-    unfold batch_raw in ER. destruct (negb _); [discriminate|].
-    destruct (filter _ _); inversion ER; auto.
+    apply batch_frame in ER as (_ & _ & _ & _ & _ & Htx & Hl & _). now rewrite Htx, Hl.
   - destruct r; simpl; auto.
     unfold execute_raw in ER. destruct (find_batch _ _ _); [|discriminate].
     destruct (_ <? _); [discriminate|]. now inversion ER.
@@ -647,6 +699,7 @@ Proof.
       destruct (tok0 =? tok); simpl; auto. destruct ok; simpl in *; auto. now rewrite EO.
   - unfold setlimit_raw in ER. rewrite g_gov_limit in ER. inversion ER; subst; clear ER. simpl.
     unfold upd. rewrite (Z.eqb_sym tok0 tok). destruct (tok =? tok0); auto.
+  - unfold genesis_raw in ER. inversion ER; subst; clear ER. simpl. try rewrite g_gen_settings. auto.
 Qed.
 
 (** (P) configured_is_applied, over histories: the settings a send of token [tok] meets after any
@@ -745,6 +798,43 @@ Example ex_keeper_level_not_atomic :
   r2 = Err EFunds /\ usages s2 0 = Some {| u_total := 100; u_start := 10 |} /\
   fst (deliver (Send 10 3 0 100 false) s) = s.
 Proof. vm_compute. auto. Qed.
+
+(** ** Genesis export / import *)
+(** (P) genesis_carries: what a restart from an exported genesis keeps and what it drops. *)
+Lemma genesis_step s :
+  deliver Genesis s = (step s Genesis, Ok) /\
+  taxes (step s Genesis) = taxes s /\ limits (step s Genesis) = limits s /\
+  pool (step s Genesis) = pool s /\ batches (step s Genesis) = batches s /\
+  last_id (step s Genesis) = last_id s /\ last_batch (step s Genesis) = last_batch s /\
+  bal (step s Genesis) = bal s /\ escrow (step s Genesis) = escrow s /\ burned (step s Genesis) = burned s /\
+  (forall tok, usages (step s Genesis) tok = None).
+Proof. unfold step, deliver. simpl. intuition. Qed.
+
+(** after the restart every window starts afresh, and from there on the limit holds again *)
+Lemma windows_after_genesis tok lc ops s :
+  limits s tok = Some lc -> lc_period lc <> PNone -> no_setlimit tok ops -> no_genesis ops ->
+  Forall (fun w => w <= lc_limit lc) (window_sums (block_limit (lc_period lc)) (accepted tok (step s Genesis) ops)).
+Proof.
+  intros HL HP HN HG. destruct (genesis_step s) as (_ & _ & Hl & _ & _ & _ & _ & _ & _ & _ & Hu).
+  apply window_total_le_limit_fresh; auto; try (rewrite Hl; exact HL).
+Qed.
+
+(** (P) window_total_across_genesis_refuted: WITHOUT the hypothesis [no_genesis] the window clause is
+    false on the current tree — the tally is not part of the exported genesis, so the allowance used
+    before the restart is available again right after it: limit 150 a day, 100 sent at height 10,
+    restart, 100 sent at height 11: one window by the restart rule, total 200. *)
+Definition gx_init : state := step (init [(0, 0, 1000)] [0]) (SetLimit 0 150 PDaily []).
+Definition gx_ops : list op := [Send 10 0 0 100 false; Genesis; Send 11 0 0 100 false].
+Lemma genesis_window_refuted :
+  exists tok lc ops s, limits s tok = Some lc /\ lc_period lc <> PNone /\ usages s tok = None /\ no_setlimit tok ops /\
+    ~ Forall (fun w => w <= lc_limit lc) (window_sums (block_limit (lc_period lc)) (accepted tok s ops)).
+Proof.
+  exists 0, {| lc_limit := 150; lc_period := PDaily; lc_exempt := [] |}, gx_ops, gx_init.
+  split; [reflexivity|]. split; [discriminate|]. split; [reflexivity|]. split.
+  - repeat constructor.
+  - assert (E : window_sums (block_limit PDaily) (accepted 0 gx_init gx_ops) = [200]) by (vm_compute; reflexivity).
+    simpl lc_period. simpl lc_limit. rewrite E. intros H. inversion H; subst. lia.
+Qed.
 
 (** two tokens whose names differ only in case (5 = ".../WETH", 6 = ".../weth"): independent settings *)
 Example ex_twins :
